@@ -42,6 +42,9 @@ type Result struct {
 	Samples    []any            `json:"samples"`
 	Violations []*Violation     `json:"violations"`
 	Notes      []string         `json:"notes"`
+	// Agree holds values that every shard (separate OS process) computing the
+	// same key must agree on; the driver compares them across shards.
+	Agree      map[string]string `json:"agree,omitempty"`
 	Exhaustive bool             `json:"exhaustive"`
 	Complete   bool             `json:"complete"`
 	WallS      float64          `json:"wall_s"`
@@ -337,6 +340,17 @@ func (c *Ctx) WantSample() bool {
 func (c *Ctx) Note(format string, a ...any) {
 	c.mu.Lock()
 	c.res.Notes = append(c.res.Notes, fmt.Sprintf(format, a...))
+	c.mu.Unlock()
+}
+
+// Agree publishes a value that other shards (other processes) computing the
+// same key must reproduce exactly.
+func (c *Ctx) Agree(key, value string) {
+	c.mu.Lock()
+	if c.res.Agree == nil {
+		c.res.Agree = map[string]string{}
+	}
+	c.res.Agree[key] = value
 	c.mu.Unlock()
 }
 
